@@ -21,6 +21,7 @@
     alignTensors  align_tensors    (tensor.py:571-591)
     binaryT       eager_binary_tensor_tensor for scalar outputs (tensor.py:700-726)
     materialize   materialize      (tensor.py:465-481) over a small lazy term language
+    madeOp2       op_factory.eager_tensor_made_op (to_data by name, raw fn under broadcasting, to_funsor)
     LTerm.alignT  Funsor.align / Align / Contraction.align with eager_align; deltaAlign = Delta.align
 
   `gather v js` uses `getD … 0` purely as index plumbing behind the `isPerm` guard that models
@@ -438,5 +439,56 @@ def deltaAlign {β : Type} (terms : List (String × β)) (names : List String) :
   else if names.isEmpty || names = terms.map (·.1) then .ok terms
   else if !((terms.map (·.1)).all (· ∈ names)) then .error .valueError
   else .ok (sortBy (fun t => pos t.1 names) terms)
+
+/-! ### `funsor.make_op` ops: `op_factory.eager_tensor_made_op` -/
+
+/-- `name_to_dim.setdefault(k, -1 - len(name_to_dim))`. -/
+def setDefaultDim (acc : List (String × Int)) (k : String) : List (String × Int) :=
+  match lookup k acc with
+  | some _ => acc
+  | none => acc ++ [(k, -1 - (acc.length : Int))]
+
+/-- The `name_to_dim` the rule builds: every operand's inputs, reversed, first operand first. -/
+def madeDims (args : List (Tensor α)) : List (String × Int) :=
+  args.foldl (fun acc t => t.keys.reverse.foldl setDefaultDim acc) []
+
+/-- numpy broadcasting, step 1: prepend size-1 axes up to rank `n`. -/
+def padLeft (a : Arr α) (n : Nat) : Except Err (Arr α) :=
+  reshape a (List.replicate (n - a.shape.length) 1 ++ a.shape)
+
+/-- numpy broadcasting, step 2: axis by axis the sizes agree or one of them is 1. -/
+def bshape2 : List Nat → List Nat → Option (List Nat)
+  | [], [] => some []
+  | a :: as, b :: bs =>
+    match bshape2 as bs with
+    | none => none
+    | some r => if a = b then some (a :: r) else if a = 1 then some (b :: r)
+                else if b = 1 then some (a :: r) else none
+  | _, _ => none
+
+/-- A raw elementwise function of two arrays under numpy broadcasting. -/
+def bcast2 (f : α → α → α) (a b : Arr α) : Except Err (Arr α) :=
+  let n := max a.shape.length b.shape.length
+  match padLeft a n, padLeft b n with
+  | .ok a', .ok b' =>
+    match bshape2 a'.shape b'.shape with
+    | some s => .ok ⟨s, fun idx => f (a'.get (clip a'.shape idx)) (b'.get (clip b'.shape idx))⟩
+    | none => .error .valueError
+  | _, _ => .error .valueError
+
+/-- `eager_tensor_made_op(op, x, y)` for a scalar elementwise raw function `f`:
+    `to_data` each operand with the joint `name_to_dim`, apply `f`, `to_funsor` with the inverse map.
+    `skipX` / `skipY` model the *unsound* shortcut "pass `.data` through" (for the witness only). -/
+def madeOp2 (f : α → α → α) (x y : Tensor α) (skipX skipY : Bool := false) :
+    Except Err (Tensor α) :=
+  let n2d := madeDims [x, y]
+  let raw := fun (t : Tensor α) (skip : Bool) => if skip then .ok t.data else toData t (some n2d)
+  match raw x skipX, raw y skipY with
+  | .ok a, .ok b =>
+    match bcast2 f a b with
+    | .ok data => toFunsor data (some []) none (some (n2d.map fun p => (p.2, p.1)))
+    | .error e => .error e
+  | .error e, _ => .error e
+  | _, .error e => .error e
 
 end FV.C19
